@@ -14,6 +14,8 @@
 (* Deciders choose among the productions that still FIT the remaining      *)
 (* depth, judged with the minimum depths the grammar analysis reports:     *)
 (*   Reported == MinDepthV(G, Dev)                                         *)
+(* The progressively-terminal decider ("pt") has no limit; its rule is     *)
+(* PtSetD of GESynthesisRules and its termination is PtDepthBounded.       *)
 (* Dev = {} is the exact analysis (then list lengths must be chosen        *)
 (* depth-aware: an element that does not fit forces the empty list);       *)
 (* Dev = {"list-assumed-nonempty"} is what the implementation does today.  *)
@@ -34,7 +36,7 @@ IsHole(t)  == t.k = "hole"
 RECURSIVE HasHole(_)
 HasHole(t) == IsHole(t) \/ (~IsHole(t) /\ \E i \in DOMAIN t.kids : HasHole(t.kids[i]))
 
-Reported(g)  == MinDepthV(g, Dev)
+Reported(g)  == MinDepthV(g, Dev \ {"pt-fallback-any"})
 FormDist(g, f) == FormMinV(f, Reported(g), Dev)
 Rem(c)       == maxd - c
 
@@ -43,7 +45,15 @@ Rem(c)       == maxd - c
 \*  decision-level trace specification Trace_Derive can apply them to the implementation's distances)
 Fits(g, f, c)   == FormDist(g, f) <= Rem(c)
 IsRecForm(g, f) == f.k = "sym" /\ Recursive(g, f.s)
-Choices(g, d, alts, c) == ChoicesD(LAMBDA f : FormDist(g, f), LAMBDA f : IsRecForm(g, f), d, alts, c, maxd)
+\* the progressively-terminal decider aims at the largest minimum depth of any symbol (get_max_node_depth)
+PtTarget(g) == LET m == SMax({Reported(g)[s] : s \in Reachable(g)})
+               IN IF m >= INF THEN Reported(g)[g.start] * Cardinality(RecursiveSet(g) \cap Reachable(g)) ELSE m
+FormW(g, f) == IF f.k = "sym" /\ Known(g, f.s) THEN RawW(g, f.s) ELSE 10000
+PtFallback  == IF "pt-fallback-any" \in Dev THEN "any" ELSE "closest"
+Choices(g, d, alts, c) ==
+    IF d = "pt" THEN PtSetD(LAMBDA f : FormDist(g, f), LAMBDA f : IsRecForm(g, f), LAMBDA f : FormW(g, f), alts, c,
+                            PtTarget(g), PtFallback)
+    ELSE ChoicesD(LAMBDA f : FormDist(g, f), LAMBDA f : IsRecForm(g, f), d, alts, c, maxd)
 
 ElemForm(f) == IF f.k = "ann" THEN f.es[1].es[1] ELSE f.es[1]
 Holes(f, n, c) == [i \in 1..n |-> Hole(f, c)]
@@ -124,6 +134,10 @@ PartialDepth(t) == IF IsHole(t) THEN 0
 (* C03 *)       DepthOK  == PartialDepth(term) <= (IF pc = "new" THEN PartialDepth(term) ELSE maxd)
                 NoStuck  == (pc = "run" /\ HasHole(term)) => Expansions(G, dec, term) # {}
                 RejectedOnlyBelowMin == (pc = "rejected") <=> (pc # "new" /\ maxd < StartMin(G))
+\* the decider without a depth limit still ends: past the target depth it heads for a terminal, so no
+\* derivation grows beyond twice the target depth (checked by TLC for every grammar of the family)
+PtBound(g) == 2 * PtTarget(g) + 1
+PtDepthBounded == dec = "pt" => PartialDepth(term) <= PtBound(G)
 (* C10 *)       GrammarReadOnly == [][G' = G]_yvars
 (* C04 *)       GrowExact  == (pc = "new" /\ dec = "grow" /\ maxd >= StartMin(G))
                                  => Derive(G, "grow", StartForm(G), 0) = Lang(G, StartForm(G), maxd)
